@@ -1598,8 +1598,13 @@ def o_function_reuse(case):
                     ('call %d of %d (buffers refilled in place%s): the result is not the Jakes sum of the contents at '
                      'call time (off by %.3g, tolerance %.3g)' % (i, len(kept), ', phi_l is psi_l' if case['calls'][i].get('same') else '', err, tol))
             nt2, h2 = fg.generate_jakes_samples(Fd, Ts, kp['N'], L, kp['shape'], kp['k0'] * Ts, kp['phi'].copy(), kp['psi'].copy())
-            if h2.shape != kp['h'].shape or not np.array_equal(h2, kp['h']) or nt2 != kp['nt']:
-                d = float(np.max(np.abs(h2 - kp['h']))) if h2.shape == kp['h'].shape and h2.size else float('nan')
+            same = h2.shape == kp['h'].shape
+            d = (float(np.max(np.abs(h2 - kp['h']))) if h2.size else 0.0) if same else float('nan')
+            STATS['reuse_compared'] = STATS.get('reuse_compared', 0) + 1
+            STATS['reuse_bit_exact'] = STATS.get('reuse_bit_exact', 0) + int(same and np.array_equal(h2, kp['h']))
+            # (the same computation on another array object: bit-identical in practice, required only within the
+            # stated tolerance so that memory alignment can never raise a false alarm)
+            if not same or not d <= tol or nt2 != kp['nt']:
                 return 'buffer-reuse:differs-from-fresh-call:%s:call=%s' % (tag, 'first' if i == 0 else 'later'), \
                     'call %d: a call with fresh copies of the same contents returns something else (max difference %.3g)' % (i, d)
     except Exception as e:
@@ -2359,7 +2364,8 @@ def function_close_cases(rng, quick):
             ts = float(10.0 ** rng.uniform(-9, -2))
             L, vs, k = close_params(rng, what, fd, ts, [0.0, d, -2 * d])
             if 10 <= k <= 9 * 10 ** 9:
-                add(what + '-relative', [dict(v, k0=k, N=rng.randint(1, 20)) for v in vs], L)
+                Nr = rng.randint(1, 20)
+                add(what + ('-tiny' if ts < 1e-8 and what == 'Ts' else '-relative'), [dict(v, k0=k, N=Nr) for v in vs], L)
     return out
 
 
